@@ -30,7 +30,7 @@ PROP = {
                    ("TestVFC14LeaseDBConcurrent", (60, 250))],
          "plain": ["TestVFC14LeaseDBSyscalls"]},
         {"name": "filterlist", "pkg": "internal/filtering", "files": ["filtering/c14_list_test.go"],
-         "tests": [("TestVFC14FilterList", (40, 150))],
+         "tests": [("TestVFC14FilterList", (40, 150)), ("TestVFC14LargeList", (2, 4), {"shards": (2, 4), "thorough_scale": 1})],
          "plain": ["TestVFC14FilterListSyscalls"]},
         {"name": "config", "pkg": "internal/home", "files": ["home/common_assembly_test.go", "home/c14_config_test.go"],
          "tests": [("TestVFC14ConfigWrite", (40, 120)), ("TestVFC14ConfigUpgrade", (60, 150)),
